@@ -97,11 +97,11 @@ Proof.
   - replace (g_nodes C15_ex_graph')
       with (pick [2; 3; 0; 1]%nat (g_nodes C15_ex_graph) {| n_tumor := false; n_name := "" |})
       by (vm_compute; reflexivity).
-    apply pick_perm. reflexivity.
+    apply pick_perm. vm_compute. reflexivity.
   - replace (g_edges C15_ex_graph')
       with (pick [4; 5; 6; 1; 0; 2; 3]%nat (g_edges C15_ex_graph) (mk_growth {| n_tumor := false; n_name := "" |}))
       by (vm_compute; reflexivity).
-    apply pick_perm. reflexivity.
+    apply pick_perm. vm_compute. reflexivity.
 Qed.
 
 (** state (II, III, I) = (1, 2, 0) is (III, I, II) = (2, 0, 1) in the new listing;
@@ -132,7 +132,7 @@ Example C15_ex_model_values :
   qout (risk_spec C15_ex_uni C15_ex_pm C15_ex_inv C15_ex_patient) = (415233, 1035239)%Z /\
   qout (risk_spec (with_graph C15_ex_uni C15_ex_graph') C15_ex_pm C15_ex_inv C15_ex_patient')
     = (415233, 1035239)%Z.
-Proof. repeat split; vm_compute; reflexivity. Qed.
+Proof. vm_compute. repeat split; reflexivity. Qed.
 
 (** renaming: the graph built from the renamed dictionary IS [rename_graph] of the
     original one (arc names included); likelihood of the renamed model and patient *)
@@ -146,7 +146,7 @@ Example C15_ex_renamed_values :
   map fst (p_find (rename_patient C15_ex_rl C15_ex_rm C15_ex_patient)) = ["mCT"; "mpath"] /\
   qout (patient_lik_spec (rename_uni C15_ex_rl C15_ex_rm C15_ex_uni) C15_ex_pm
           (rename_patient C15_ex_rl C15_ex_rm C15_ex_patient)) = (9317151, 400000000)%Z.
-Proof. repeat split; vm_compute; reflexivity. Qed.
+Proof. vm_compute. repeat split; reflexivity. Qed.
 Example C15_ex_renamed_by_theorem :
   risk_spec (rename_uni C15_ex_rl C15_ex_rm C15_ex_uni) C15_ex_pm (rename_pattern C15_ex_rl C15_ex_inv)
             (rename_patient C15_ex_rl C15_ex_rm C15_ex_patient)
@@ -159,7 +159,7 @@ Example C15_ex_side_swap :
   qout (bi_joint_spec C15_ex_bi C15_ex_pm [1; 1; 0]%nat [1; 0; 0]%nat) = (22687821, 20480000000)%Z /\
   qout (bi_joint_spec C15_ex_bi C15_ex_pm [1; 0; 0]%nat [1; 1; 0]%nat) = (7797429, 20480000000)%Z /\
   qout (bi_joint_spec (swap_sides C15_ex_bi) C15_ex_pm [1; 0; 0]%nat [1; 1; 0]%nat) = (22687821, 20480000000)%Z.
-Proof. repeat split; vm_compute; reflexivity. Qed.
+Proof. vm_compute. repeat split; reflexivity. Qed.
 Example C15_ex_side_swap_by_theorem :
   bi_patient_lik_spec (swap_sides C15_ex_bi) (bi_joint_spec (swap_sides C15_ex_bi) C15_ex_pm)
                       (swap_bpatient C15_ex_bpatient)
